@@ -15,7 +15,12 @@ fn main() {
     let text = String::from_utf8_lossy(&src).into_owned();
     let max_steps = std::env::var("MINILUA_MAX_STEPS").ok().and_then(|s| s.parse::<u64>().ok()).unwrap_or(u64::MAX);
     let opts = minilua::RunOptions { max_steps, capture_output: false, ..Default::default() };
-    match minilua::run_source(&text, &opts) {
+    let result = minilua::run_source(&text, &opts);
+    {
+        use std::io::Write;
+        let _ = std::io::stdout().flush();
+    }
+    match result {
         Err(e) => {
             eprintln!("lua: {}", e.message);
             std::process::exit(1);
